@@ -49,6 +49,8 @@ struct Config {
   int cont = 0;
   // ion
   int trackers = 0;
+  // probe outside the lattice: "PhotonSourceDistribution: type: None"
+  int nosource = 0;
 
   std::string label() const {
     std::string s = fmt("%s/t%d", MODE_NAME[mode], threads);
@@ -58,12 +60,14 @@ struct Config {
       s += fmt("/live=%d/mask=%d/turb=%d", live, mask, turb);
     }
     s += fmt("/diffuse=%d/cont=%d", diffuse, cont);
+    if (nosource)
+      s += "/no-discrete-source";
     return s;
   }
   std::string json(const std::string &tool) const {
     return fmt("{\"mode\": %d, \"threads\": %d, \"live\": %d, \"mask\": %d, \"turb\": %d, \"diffuse\": %d, "
-               "\"cont\": %d, \"trackers\": %d, \"tool\": \"%s\", \"label\": \"%s\"}",
-               mode, threads, live, mask, turb, diffuse, cont, trackers, tool.c_str(), label().c_str());
+               "\"cont\": %d, \"trackers\": %d, \"nosource\": %d, \"tool\": \"%s\", \"label\": \"%s\"}",
+               mode, threads, live, mask, turb, diffuse, cont, trackers, nosource, tool.c_str(), label().c_str());
   }
   std::vector< int > factors() const {
     if (mode == ION)
@@ -100,9 +104,12 @@ static std::string common_text(const Config &c) {
   t += "DensityGridWriter:\n  type: Gadget\n  padding: 3\n  prefix: snap_\n";
   t += "TemperatureCalculator:\n  do temperature calculation: false\n";
   t += "Abundances:\n  helium: 0.\n";
-  t += "PhotonSourceDistribution:\n  type: SingleStar\n  position: [0.1 pc, 0.2 pc, -0.1 pc]\n"
-       "  luminosity: 1.e+48 s^-1\n";
-  t += "PhotonSourceSpectrum:\n  type: Monochromatic\n  frequency: 3.28847e+15 Hz\n";
+  if (c.nosource)
+    t += "PhotonSourceDistribution:\n  type: None\nPhotonSourceSpectrum:\n  type: None\n";
+  else
+    t += "PhotonSourceDistribution:\n  type: SingleStar\n  position: [0.1 pc, 0.2 pc, -0.1 pc]\n"
+         "  luminosity: 1.e+48 s^-1\n"
+         "PhotonSourceSpectrum:\n  type: Monochromatic\n  frequency: 3.28847e+15 Hz\n";
   if (c.diffuse)
     t += "DiffuseReemissionHandler:\n  type: FixedValue\n  reemission probability: 0.5\n"
          "  reemission frequency: 3.4e15 Hz\n";
@@ -333,6 +340,9 @@ static std::vector< Finding > parse_valgrind(const std::string &log, uint64_t &s
       ++syscall_param;
       continue;
     }
+    if ((kind == "invalid-read" || kind == "invalid-write") && j + 1 < lines.size() &&
+        strip(lines[j + 1]).find("Address 0x0 is not") == 0)
+      kind = "null-deref";
     if (kind == "fatal-signal" && !out.empty())
       continue; // consequence of an error already reported
     if (site.empty())
@@ -365,6 +375,10 @@ static std::vector< Finding > parse_sanitizer(const std::string &log) {
         kind = "bad-free";
       if (rest.find("attempting double-free") == 0)
         kind = "double-free";
+      if (kind == "SEGV")
+        for (size_t j = i + 1; j < lines.size() && j < i + 6; ++j)
+          if (lines[j].find("address points to the zero page") != std::string::npos)
+            kind = "null-deref";
       std::string site, frames;
       for (size_t j = i + 1; j < lines.size() && j < i + 40; ++j) {
         const std::string &f = lines[j];
@@ -590,6 +604,12 @@ static void run_job(verif::Result &R, Counters &cn, const Config &c, const std::
                   c.json(tool));
       break;
     }
+    if (rr.exit_code != 0 && c.nosource && found.empty() && !cmac_error_site(log).empty()) {
+      // a configuration the code refuses with an error message is not a
+      // "valid parameter file": accepted outcome of the probe
+      R.add("probe_refused_with_error_message", 1);
+      break;
+    }
     if (rr.exit_code != 0) {
       clean = false;
       if (found.empty()) {
@@ -720,6 +740,7 @@ int main(int argc, char **argv) {
     c.diffuse = atoi(verif::replay_field(txt, "diffuse").c_str());
     c.cont = atoi(verif::replay_field(txt, "cont").c_str());
     c.trackers = atoi(verif::replay_field(txt, "trackers").c_str());
+    c.nosource = atoi(verif::replay_field(txt, "nosource").c_str());
     std::string tool = verif::replay_field(txt, "tool");
     if (c.threads < 1)
       c.threads = 1;
@@ -743,6 +764,26 @@ int main(int argc, char **argv) {
     std::vector< Config > sel = A.thorough() ? all : pairwise(all, (size_t)A.seed);
     nconfig += sel.size();
     for (auto &c : sel) {
+      jobs.push_back({c, "valgrind"});
+      jobs.push_back({c, "asan"});
+    }
+  }
+  // probes: no discrete source (PhotonSourceDistribution type None is a value
+  // the factory documents and do_simulation has branches for)
+  {
+    Config a;
+    a.mode = RHD_NORAD;
+    a.nosource = 1;
+    Config b;
+    b.mode = RHD_RAD;
+    b.nosource = 1;
+    b.cont = 1;
+    Config d;
+    d.mode = ION;
+    d.nosource = 1;
+    d.cont = 1;
+    for (auto &c : {a, b, d}) {
+      ++nconfig;
       jobs.push_back({c, "valgrind"});
       jobs.push_back({c, "asan"});
     }
